@@ -457,7 +457,8 @@ func (e *Errs) Addf(format string, args ...any) {
 		e.list = append(e.list, fmt.Sprintf(format, args...))
 	}
 }
-func (e *Errs) Len() int { return len(e.list) }
+func (e *Errs) Len() int       { return len(e.list) }
+func (e *Errs) List() []string { return e.list }
 func (e *Errs) Err() error {
 	if len(e.list) == 0 {
 		return nil
